@@ -73,6 +73,7 @@ EXOTIC_TREES = [
 ]
 
 ERR_RE = re.compile(r'^# ::error-(\d+) (.*)$')
+ERR_ANY = re.compile(r'^# ::error-(\d+)(?: (.*))?$')
 
 
 def plan(rng, idx, tier):
@@ -106,7 +107,16 @@ def plan(rng, idx, tier):
             if bad and gr.chance(0.15):
                 # the same offending triple written twice (a duplicate in the triple list)
                 _duplicate_bad_branch(tree, spec)
-            graphs.append({'tree': tree, 'meta': gtext.gen_metadata(gr.sub('meta'), p_any=0.4)})
+            meta = gtext.gen_metadata(gr.sub('meta'), p_any=0.4)
+            sr = gr.sub('stale')
+            if sr.chance(0.08):
+                # the input was checked before (`penman --check | penman --check`, or an edited earlier report):
+                # it already carries error-N metadata, in any order and with gaps
+                stale = sr.sample([['error-1', '(x :was y) invalid role'], ['error-2', 'an older report'],
+                                   ['error-3', ''], ['error-7', 'kept from before']], 1 + sr.randrange(3))
+                pos = sr.randrange(len(meta) + 1)
+                meta = meta[:pos] + stale + meta[pos:]
+            graphs.append({'tree': tree, 'meta': meta})
         if r.chance(0.04):
             graphs.append({'tree': r.pick(EXOTIC_TREES), 'meta': []})
         sources.append({'graphs': graphs})
@@ -283,21 +293,39 @@ def execute(trace):
                 res.violate('output', 'graph-count-or-shape', problems=problems, blocks=len(blocks),
                             expected_graphs=len(expected), **detail)
             else:
+                metas = [g_.get('meta') or [] for i in order for g_ in trace['sources'][i]['graphs']]
                 for bi, (b, want) in enumerate(zip(blocks, expected)):
-                    got = []
+                    stale = {}
+                    if bi < len(metas):
+                        for key, val in metas[bi]:
+                            if key.startswith('error-') and key[6:].isdigit():
+                                stale[int(key[6:])] = val
+                    if stale:
+                        res.hit('probe.input_already_has_error_metadata')
+                    lines = {}
                     nums = []
                     for line in b['comments']:
-                        m = ERR_RE.match(line)
+                        m = ERR_ANY.match(line)
                         if m:
                             nums.append(int(m.group(1)))
-                            got.append(m.group(2))
+                            lines[int(m.group(1))] = m.group(2) or ''
                     if not opts.get('check'):
                         want = []
-                    if sorted(got) != sorted(want):
+                    k_ = len(want)
+                    # error-1 .. error-k report the k offending triples (whatever the input carried under those
+                    # keys); keys above k are the input's own metadata, untouched
+                    got = [lines[n] for n in sorted(lines) if n <= k_]
+                    rest = {n: v for n, v in lines.items() if n > k_}
+                    want_rest = {n: v for n, v in stale.items() if n > k_}
+                    if sorted(got) != sorted(want) or len(nums) != len(set(nums)):
                         res.violate('errors', 'offending-triples-mismatch', graph=bi, expected=sorted(want),
-                                    got=sorted(got), **detail)
+                                    got=sorted(got), error_lines=lines, **detail)
                         break
-                    if nums != list(range(1, len(nums) + 1)):
+                    if rest != want_rest:
+                        res.violate('errors', 'other-error-metadata-changed', graph=bi, expected=want_rest, got=rest,
+                                    **detail)
+                        break
+                    if not stale and nums != list(range(1, len(nums) + 1)):
                         res.violate('errors', 'error-numbering', graph=bi, numbers=nums, **detail)
                         break
                     bad_msgs = [g_ for g_ in got if not g_.endswith(') invalid role')]
